@@ -162,3 +162,11 @@ m('twin-c20-cipow', 'C20', 'utilities/math/complex.pyx', "                return
 m('twin-c05-assoc', 'C05', 'tides/multilayer/heating.py', "portion_to_be_upgraded = (7. * eccentricity**2 * orbital_frequency)", "portion_to_be_upgraded = (orbital_frequency * 7. * eccentricity * eccentricity)", expect='silent')
 m('twin-c09-assoc', 'C09', 'tides/inclination_funcs/orderl2.py', "(1, 0) : 9.0*sin_i_half**2*cos_i_half**6,", "(1, 0) : 9.0*cos_i_half**6*sin_i_half**2,", expect='silent')
 m('twin-c06-rename', 'C06', 'RadialSolver/boundaries/boundaries.pyx', "cdef int[10] lapack_ipiv", "cdef int[12] lapack_ipiv", expect='silent')
+# ---- added after the seeded-change round (sub-agent changes and the refactor twins they suggested)
+m('c18-reload-unmarked', 'C18', 'utilities/multiprocessing/multiprocessing.py', "                # Call the function\n                result = study_function(this_run_dir, *args, **kwargs)\n            except Exception as e:", "                if os.path.isfile(os.path.join(this_run_dir, 'mp_results.npz')):\n                    result = dict(np.load(os.path.join(this_run_dir, 'mp_results.npz')))\n                else:\n                    result = study_function(this_run_dir, *args, **kwargs)\n            except Exception as e:", rule='R18.7')
+m('twin-c18-hoist-path', 'C18', 'utilities/multiprocessing/multiprocessing.py', "        failed_run = False\n        if avoid_crashes:", "        results_path = os.path.join(this_run_dir, 'mp_results.npz')\n        failed_run = False\n        if avoid_crashes:", expect='silent')
+m('twin-c18-hoist-path2', 'C18', 'utilities/multiprocessing/multiprocessing.py', "            np.savez(os.path.join(this_run_dir, f'mp_results.npz'), **result)", "            results_path = os.path.join(this_run_dir, 'mp_results.npz')\n            np.savez(results_path, **result)", expect='silent')
+m('c20-legacy-imag-axis', 'C20', 'utilities/math/special.py', "        z_sqrt = real_part + \\\n                 (z_i != 0.) * imag_part", "        z_sqrt = (z_r != 0.) * real_part + \\\n                 (z_i != 0.) * imag_part", rule='R20.5')
+m('c20-legacy-neg-axis', 'C20', 'utilities/math/special.py', "                 (z_i == 0.) * imag_part * 1.0j", "                 (z_i == 0.) * imag_part * -1.0j", rule='R20.5')
+m('twin-c20-legacy-half', 'C20', 'utilities/math/special.py', "real_part = np.sqrt((quad + z_r) / 2.)", "real_part = np.sqrt(0.5 * (z_r + quad))", expect='silent')
+
